@@ -539,6 +539,9 @@ func (ev *REval) builtin(name string, args []RV, yh *yielder) rres {
 		return rres{}, false
 	}
 	switch name {
+	case "read":
+		// the reference has no standard input: reading at its end is the read error
+		return fail(ERead)
 	case "write":
 		ev.out += RStr(args[0])
 		return ok(RNil)
